@@ -222,6 +222,7 @@ def run_variant(ctx, f, tag, n, kwargs, policy, extra_summ=None, pre_defl_captur
     A = sym_nq("a", (n, n))
     A0 = A.copy()
     st, out = run_guarded(lambda: it.run(f, [A], kwargs))
+    rec["it"] = it
     return st, out, rec, chooser, A, A0, d
 
 
@@ -247,7 +248,7 @@ def run(ctx):
             parts = cond_parts(cond)
             atoms = cond_atoms(cond)
             if parts is None:
-                return False
+                return None               # not a comparison (np.any / np.all / allclose ...): generic default outcome
             op, lhs, rhs = parts
             if is_tol_cond(cond):
                 lhsP = P(lhs)
@@ -287,15 +288,29 @@ def run(ctx):
                 Rw = shiftI(H0, sigma, -1)
                 Qi = eyeq(n)
                 okprov, why = True, ""
-                for j, (a, v, B) in enumerate(rec.get("house", [])):
-                    if not arrays_same(a, Rw[j:, j]):
-                        okprov, why = False, f"reflector {j} is not built from the current working column R[{j}:, {j}]"
+                houses = list(rec.get("house", []))
+                hi = 0
+                from qstatic.scenario import known_zero_keys
+                kz = known_zero_keys(rec["it"].decision_log)
+
+                def _is0(q):
+                    q = as_quat(q)
+                    return q.is_zero() or q.key() in kz or all((c.is_zero() or c.key() in kz) for c in q.c)
+                for j in range(n - 1):
+                    below_zero = all(_is0(Rw[t, j]) for t in range(j + 1, n))
+                    if hi < len(houses) and arrays_same(houses[hi][0], Rw[j:, j]):
+                        a, v, B = houses[hi]
+                        hi += 1
+                        Hj = embed(B, j, n)
+                        Rw = ref_matmul(Hj, Rw)
+                        Qi = ref_matmul(Hj, Qi)
+                    elif below_zero:
+                        continue          # column already reduced (structurally zero below the diagonal): no reflector needed
+                    else:
+                        okprov, why = False, f"no reflector built from the current working column R[{j}:, {j}] (column {j} is not reduced)"
                         break
-                    Hj = embed(B, j, n)
-                    Rw = ref_matmul(Hj, Rw)
-                    Qi = ref_matmul(Hj, Qi)
-                if len(rec.get("house", [])) != n - 1:
-                    okprov, why = False, f"{len(rec.get('house', []))} reflectors for n={n}"
+                if okprov and hi != len(houses):
+                    okprov, why = False, f"{len(houses) - hi} reflector(s) not built from a current working column"
                 Tref = shiftI(ref_matmul(Rw, ref_hermitian(Qi)), sigma, +1)
                 Qref = ref_matmul(ref_hermitian(P0), ref_hermitian(Qi))
                 small = check_deflation(ctx, f_pure, tag, ch.log, Tref, T, n)
@@ -430,7 +445,7 @@ def _pure_policy(conv, small_at, shift_nonzero=True):
     def policy(cond, node, interp, rec):
         parts = cond_parts(cond)
         if parts is None:
-            return False
+            return None
         op, lhs, rhs = parts
         if is_tol_cond(cond):
             if P(rhs).same(TOL) and op in ("le", "lt"):
@@ -442,7 +457,7 @@ def _pure_policy(conv, small_at, shift_nonzero=True):
             return shift_nonzero       # sigma != 0.0
         if op == "eq":
             return False               # "column already zero" skip test: not skipped
-        return False
+        return None
     return policy
 
 
